@@ -25,6 +25,18 @@ def na(pid, reason):
 exec(open(os.path.join(HERE, "tools", "claims.py")).read())
 
 
+def _rules_of(pid):
+    """rule titles as recorded by the last run of the check (evidence is written by ./check)"""
+    import re
+    try:
+        ev = json.load(open(os.path.join(HERE, "evidence", "%s.json" % pid)))
+        rules = ev["coverage"]["rules"]
+    except (IOError, KeyError, ValueError):
+        return ""
+    keys = sorted(rules, key=lambda k: int(re.sub(r"\D", "", k.split(".")[-1]) or 0))
+    return " Rules: " + "; ".join("%s %s" % (k.split(".")[-1], rules[k]["text"]) for k in keys) + "."
+
+
 def main():
     checks = []
     for pid in sorted(CLAIMED):
@@ -36,7 +48,7 @@ def main():
             evidence_file="/verif/evidence/%s.json" % pid,
             replay_cmd_template="./check %s --replay {path}" % pid,
             engine="sa",
-            level_claimed=dict(category="other", text=text + " The rules applied in a run, with their instance counts and "
+            level_claimed=dict(category="other", text=text + _rules_of(pid) + " The rules applied in a run, with their instance counts and "
                                "floors, are listed in evidence coverage.rules; rules whose subject this property shares "
                                "with a sibling property are imported from that property's check (DESIGN.md section 9.4); "
                                "general lints come from sa/lints.py.", design_ref=ref),
